@@ -2,6 +2,10 @@ import PyCraft.Drive.VarInt
 import PyCraft.Drive.McHash
 import PyCraft.Drive.Position
 import PyCraft.Drive.Auth
+import PyCraft.Drive.Cfb8
+import PyCraft.Drive.Dispatch
+import PyCraft.Drive.Negotiate
+import PyCraft.Drive.Frame
 /-!
 Line-protocol driver over the executable definitions of the models.  One request per line, tokens
 separated by single spaces, byte strings hex-encoded (`-` = empty).  One canonical reply per line.
@@ -9,7 +13,7 @@ Anything unparsable yields `bad-op` (never a default value).
 -/
 open PyCraft PyCraft.Drive
 
-def handlers : List (List String → Option String) := [varint, mchash, position, auth]
+def handlers : List (List String → Option String) := [varint, mchash, position, auth, cfb8, dispatch, negotiate, Drive.frame]
 
 def handle (toks : List String) : String :=
   match handlers.findSome? (· toks) with
